@@ -45,9 +45,12 @@ def blockFrames (major codec ch sr : Nat) : Nat :=
   else if major == 0x05 && codec == 0x03 then 10      -- PAF 24-bit: 10 frames per block
   else 1
 
-/-- at most one pad frame where a container pads odd byte counts (C04): 1-byte samples in IFF-style
-    containers.  AIFF pads SSND to an even length and derives frames from it. -/
-def padFrames (major codec _ch : Nat) : Nat :=
+/-- at most one pad frame where a container pads odd byte counts (C04).  No container uses the allowance any
+    more: AIFF counted its SSND pad byte as a frame until KF-AIFF-ODD-PAD was repaired (`padFramesOld`). -/
+def padFrames (_major _codec _ch : Nat) : Nat := 0
+
+/-- the table before the repair of KF-AIFF-ODD-PAD: one-byte encodings in AIFF -/
+def padFramesOld (major codec _ch : Nat) : Nat :=
   let onebyte := [0x01, 0x05, 0x10, 0x11].contains codec
   if major == 0x02 && onebyte then 1 else 0
 
